@@ -170,10 +170,16 @@ func (bucket *Bucket) NamedDataStore(name sgbucket.DataStoreName) (sgbucket.Data
 		warn("NamedDataStore(%q) -> %v", name, err)
 		return nil, err
 	}
+	bucket.mutex.Lock()
+	closed := bucket.closed
+	bucket.mutex.Unlock()
+	if closed {
+		return nil, ErrBucketClosed // also for a collection this handle still has cached
+	}
 
 	collection, err := bucket.getOrCreateCollection(sc, true)
 	if err != nil {
-		err = fmt.Errorf("unable to retrieve NamedDataStore for rosmar Bucket: %v", err)
+		err = fmt.Errorf("unable to retrieve NamedDataStore for rosmar Bucket: %w", err)
 		warn("NamedDataStore(%q) -> %v", name, err)
 		return nil, err
 	}
